@@ -112,9 +112,16 @@ Definition field_of (s : schema) (c : string) : option field :=
   find (fun f => has_col f && String.eqb (f_db f) c) s.
 Definition has_cell (cells : list cell) (row : Z) (c : string) : bool :=
   existsb (fun x => (c_row x =? row) && String.eqb (c_col x) c) cells.
-Definition in_rows (stored : list Z) (model_key : Z) (where_ids : option (list Z)) (id : Z) : bool :=
-  mem_z id stored && ((model_key =? 0) || (id =? model_key))
-  && match where_ids with None => true | Some l => mem_z id l end.
+(* "only rows matching the chain's conditions and the model value's primary key": every non-zero
+   member of the model value's key equals the row's member *)
+Fixpoint key_ok (mk ks : list Z) : bool :=
+  match mk, ks with
+  | m :: mk', k :: ks' => ((m =? 0) || (k =? m)) && key_ok mk' ks'
+  | _, _ => true
+  end.
+Definition in_rows (model_key : list Z) (where_ids : option (list Z)) (r : srow) : bool :=
+  key_ok model_key (snd r)
+  && match where_ids with None => true | Some l => mem_z (fst r) l end.
 Definition is_new (row : Z) : bool := 1000 <? row.
 
 (* ---- updates: only permitted, selected columns of exactly the targeted rows; required ones did --- *)
@@ -169,7 +176,7 @@ Definition spec_conflict (s : schema) (table : string) (o : op) (selects omits :
 Definition all_new (cells : list cell) : bool := forallb (fun x => is_new (c_row x)) cells.
 
 Definition spec_case (s : schema) (table : string) (o : op) (selects omits : list sitem)
-  (ps : list payload) (stored : list Z) (model_key : Z) (where_ids : option (list Z))
+  (ps : list payload) (stored : list srow) (model_key : list Z) (where_ids : option (list Z))
   (cells : list cell) (err : bool) : bool :=
   let p := match ps with p :: _ => p | [] => (0, []) end in
   if err then match cells with [] => true | _ => false end      (* a failed statement writes nothing *)
@@ -182,7 +189,7 @@ Definition spec_case (s : schema) (table : string) (o : op) (selects omits : lis
       then spec_new_rows s table false selects omits [p] cells
       else spec_conflict s table o selects omits p cells
   | OSave =>
-      if mem_z (fst p) stored
+      if mem_z (fst p) (map fst stored)
       then spec_update s table ShSave true selects omits p [fst p] cells
       else match cells with
            | [] => true      (* key not stored: nothing, or (C16) the value is inserted *)
@@ -192,7 +199,7 @@ Definition spec_case (s : schema) (table : string) (o : op) (selects omits : lis
       match update_shape o with
       | Some (sh, hooks) =>
           spec_update s table sh hooks selects omits p
-                      (filter (in_rows stored model_key where_ids) stored) cells
+                      (map fst (filter (in_rows model_key where_ids) stored)) cells
       | None => false
       end
   end.
